@@ -448,8 +448,15 @@ Definition sits (I : instance) (p : plan) (t : task) : option (Z * Z * Z * Z) :=
        | Some (Some (s, w, k)) => match nth_strat t k with Some st => Some (s, w, k, s_rt st) | None => None end
        | _ => None
        end.
-(* closed-interval convention of the ILP: [start, start + runtime], a running task [now, now + full runtime] *)
+Definition dur (t : task) (rt : Z) : Z := if is_running t then t_remaining t else rt.
+(* closed intervals [start, start + runtime]; a running task occupies [now, now + remaining] *)
 Definition active_cl (I : instance) (p : plan) (t : task) (w tau : Z) : bool :=
+  match sits I p t with
+  | Some (s, w', _, rt) => (w' =? w) && (s <=? tau) && (tau <=? s + dur t rt)
+  | None => false
+  end.
+(* the ILP's own view: a running task is charged its FULL runtime from now (F11-iii) *)
+Definition active_clf (I : instance) (p : plan) (t : task) (w tau : Z) : bool :=
   match sits I p t with
   | Some (s, w', _, rt) => (w' =? w) && (s <=? tau) && (tau <=? s + rt)
   | None => false
@@ -461,10 +468,12 @@ Definition req_at (I : instance) (p : plan) (t : task) (r : Z) : Z :=
   end.
 Definition usage_cl (I : instance) (p : plan) (w r tau : Z) : Z :=
   sum_list (fun t => if active_cl I p t w tau then req_at I p t r else 0) (i_tasks I).
+Definition usage_clf (I : instance) (p : plan) (w r tau : Z) : Z :=
+  sum_list (fun t => if active_clf I p t w tau then req_at I p t r else 0) (i_tasks I).
 (* the simulator's truth: half-open [start, start + runtime), a running task [now, now + remaining) *)
 Definition active_ho (I : instance) (p : plan) (t : task) (w tau : Z) : bool :=
   match sits I p t with
-  | Some (s, w', _, rt) => (w' =? w) && (s <=? tau) && (tau <? s + (if is_running t then t_remaining t else rt))
+  | Some (s, w', _, rt) => (w' =? w) && (s <=? tau) && (tau <? s + dur t rt)
   | None => false
   end.
 Definition usage_ho (I : instance) (p : plan) (w r tau : Z) : Z :=
@@ -540,3 +549,57 @@ Definition dep_linkedb (I : instance) : bool :=
   forallb (fun p => negb (dependent I (fst p) (snd p)) ||
                     linkedb (length (i_tasks I)) I (fst p) (snd p) || linkedb (length (i_tasks I)) I (snd p) (fst p))
           (list_prod (i_tasks I) (i_tasks I)).
+
+(* ------------------------------------------------------------------ C14: the specification of feasible plans *)
+(* `feasible_clb`: the convention the ILP applies consistently — closed intervals, starts >= now + 1, one
+   microsecond between a parent's end and its child's start — with a running task occupying
+   [now, now + remaining].  Decidable; capacity is checked at the start instants (enough: an interval
+   that contains tau contains the latest start <= tau). *)
+Definition decision_clb (I : instance) (t : task) (d : option (Z * Z * Z)) : bool :=
+  match d with
+  | None => negb (is_scheduled t && negb (i_retract I))
+  | Some (s, w, k) =>
+      match nth_worker I w, nth_strat t k with
+      | Some wk, Some st =>
+          compat wk st && (i_now I + 1 <=? s) && (t_release t <=? s) &&
+          (negb (enforce_for I t) || (s + s_rt st <=? t_deadline t))
+      | _, _ => false
+      end
+  end.
+Definition precedence_clb (I : instance) (p : plan) : bool :=
+  forallb (fun c => is_running c || negb (placed_in I p c) ||
+                    forallb (fun q => placed_in I p q && (start_in I p q + dur q (rt_in I p q) + 1 <=? start_in I p c))
+                            (decided_parents I c)) (i_tasks I).
+Definition starts_of (I : instance) (p : plan) : list Z :=
+  map (start_in I p) (filter (placed_in I p) (i_tasks I)).
+Definition capacity_clb (I : instance) (p : plan) : bool :=
+  forallb (fun tau => forallb (fun wi => forallb (fun rq => usage_cl I p (fst wi) (fst rq) tau <=? snd rq) (w_res (snd wi)))
+                              (wenum I)) (starts_of I p).
+Fixpoint eqlZ (a b : list Z) : bool :=
+  match a, b with [], [] => true | x :: a', y :: b' => (x =? y) && eqlZ a' b' | _, _ => false end.
+Definition feasible_clb (I : instance) (p : plan) : bool :=
+  eqlZ (map fst p) (map t_id (nonrunning I)) &&
+  forallb (fun t => match plan_get p (t_id t) with Some d => decision_clb I t d | None => false end) (nonrunning I) &&
+  precedence_clb I p && capacity_clb I p.
+(* goodput of a plan: graphs all of whose reward tasks are placed (or running) *)
+Definition goodput (I : instance) (p : plan) : Z :=
+  sum_list (fun g => if forallb (placed_in I p) (reward_tasks I g) then 1 else 0) (graphs_in_order I).
+(* the same, read off an assignment *)
+Definition placedb_a (I : instance) (a : assignment) (t : task) : bool := existsb (fun sl => on a t sl =? 1) (pairs I t).
+Definition goodput_a (I : instance) (a : assignment) : Z :=
+  sum_list (fun g => if forallb (placedb_a I a) (reward_tasks I g) then 1 else 0) (graphs_in_order I).
+
+(* exhaustive search over the plans with starts up to a horizon (thorough tier / small instances) *)
+Fixpoint zrange (lo : Z) (n : nat) : list Z := match n with O => [] | S m => lo :: zrange (lo + 1) m end.
+Definition options (I : instance) (horizon : Z) (t : task) : list (option (Z * Z * Z)) :=
+  filter (decision_clb I t)
+    (None :: flat_map (fun s => flat_map (fun wi => map (fun ks => Some (s, fst wi, fst ks)) (senum t)) (wenum I))
+                      (zrange (i_now I + 1) (Z.to_nat (horizon - i_now I)))).
+Fixpoint plans_of (I : instance) (horizon : Z) (ts : list task) : list plan :=
+  match ts with
+  | [] => [[]]
+  | t :: r => flat_map (fun p => map (fun d => (t_id t, d) :: p) (options I horizon t)) (plans_of I horizon r)
+  end.
+Definition best_goodput (I : instance) (horizon : Z) : Z :=
+  fold_right (fun p acc => if precedence_clb I p && capacity_clb I p then Z.max (goodput I p) acc else acc) (-1)
+             (plans_of I horizon (nonrunning I)).
